@@ -234,6 +234,40 @@ func c09Bases() []*c09Base {
 			ob := p.Obj(bTBlob, big, false)
 			p.Ofs(ob, dl, false)
 			mk("large", s, p, nil)
+
+			// "medium": the only base whose BYTES are longer than the scanner's
+			// 4 KiB read buffer and the 32 KiB pooled copy buffer (incompressible
+			// data: stored deflate blocks, read with Read instead of ReadByte)
+			rnd := func(n int, seed uint32) []byte {
+				out := make([]byte, n)
+				x := seed
+				for i := range out {
+					x ^= x << 13
+					x ^= x >> 17
+					x ^= x << 5
+					out[i] = byte(x >> 9)
+				}
+				return out
+			}
+			ma := rnd(5000, 2463534242)
+			ma2 := append(append(append([]byte{}, ma[:2500]...), "EDIT"...), ma[2500:]...)
+			dm := append(bVarint(5000), bVarint(5004)...)
+			dm = append(dm, bCopyOp(0, 2500)...)
+			dm = append(dm, 4, 'E', 'D', 'I', 'T')
+			dm = append(dm, bCopyOp(2500, 2500)...)
+			if outb, reason := bGitPatchDelta(ma, dm); reason != "" || !bytes.Equal(outb, ma2) {
+				fw.Abort("C09 set-up: bad medium delta (%s)", reason)
+			}
+			mc := rnd(36000, 88172645)
+			p = bNewPack(s)
+			oa := p.Obj(bTBlob, ma, false)
+			p.Ofs(oa, dm, false)
+			p.Obj(bTBlob, mc, false)
+			p.Ref(bOID(s, "blob", ma2), append(append(bVarint(5004), bVarint(3)...), bCopyOp(2499, 3)...), false)
+			if p.Len() < 40000 {
+				fw.Abort("C09 set-up: the medium pack is only %d bytes", p.Len())
+			}
+			mk("medium", s, p, nil)
 		} else {
 			p := bNewPack(s)
 			p.Obj(bTCommit, commit, false)
@@ -786,6 +820,7 @@ func runC09(c *fw.Ctx) {
 		return n
 	}())
 	c.Bound("substitution_values", vals)
+	c.Bound("medium_pack_windows", "the 41 KB base is mutated / cut at every offset within 8 of a multiple of 4096, within [-6,+12] of every entry start, in the last 8 bytes of every entry, in the first and the last 64 bytes (quick and thorough)")
 	c.Bound("variants", []string{"raw (trailer left alone)", "resealed (trailer recomputed: malicious)"})
 	c.Bound("pairs", c.Pick(0, 1))
 	c.SetRule("for each base pack: every single-byte substitution at every offset with every listed value, every truncation length, each both raw and with the trailer recomputed; (thorough) every pair of substitutions b^01/b^80 within the first 40 bytes; plus hand-built packs (declared size vs inflated length +-1,2 for objects and deltas, ofs-delta offsets 0 / beyond the start / into the header / into the middle of an entry, ref-delta to itself via a 2-cycle and to a missing id, delta chains of depth 4095/4096/4097, wrong trailer, trailing garbage, object count +-1, bad types, oversized size varints, truncated delta instructions). Each candidate is parsed by go-git in 4 parser modes and through the filesystem PackfileWriter; when any mode accepts, every yielded object is re-hashed with an independent hasher and real `git index-pack` (thin family: --fix-thin --stdin in a repository holding the base) gives its verdict. non-trivial = candidates at least one mode accepts; distinct = (verdict pair, family, pack region / git's normalised message).")
@@ -809,7 +844,11 @@ func runC09(c *fw.Ctx) {
 		if !c.Thorough() && (b.name == "large") {
 			continue
 		}
+		win := c09Windows(b)
 		for off := 0; off < len(b.pack); off++ {
+			if win != nil && !win[off] {
+				continue
+			}
 			for _, v := range vals {
 				orig := b.pack[off]
 				var nb byte
@@ -836,12 +875,15 @@ func runC09(c *fw.Ctx) {
 			}
 		}
 		for l := 0; l < len(b.pack); l++ {
+			if win != nil && !win[l] {
+				continue
+			}
 			add(b, append([]byte{}, b.pack[:l]...), "truncation", b.region(int64(l)), fmt.Sprintf("file cut to %d bytes", l))
 			if l >= 12 && l < len(b.pack)-hs {
 				add(b, bSealPack(append([]byte{}, b.pack[:l]...), b.sha256), "truncation+new trailer", b.region(int64(l)), fmt.Sprintf("body cut to %d bytes, trailer recomputed", l))
 			}
 		}
-		if c.Thorough() {
+		if c.Thorough() && win == nil {
 			lim := 40
 			for i := 0; i < lim; i++ {
 				for j := i + 1; j < lim; j++ {
@@ -1059,4 +1101,29 @@ func c09Hand(c *fw.Ctx, bases []*c09Base, add func(b *c09Base, pack []byte, fami
 		p.Ofs(o0, d, false)
 		add(hb, p.Bytes(), "invalid delta instructions", t.name, "ofs-delta with "+t.name)
 	}
+}
+
+// c09Windows: the offsets of a big base pack that are mutated (nil = all).
+func c09Windows(b *c09Base) map[int]bool {
+	if b.name != "medium" {
+		return nil
+	}
+	win := map[int]bool{}
+	mark := func(lo, hi int) {
+		for i := lo; i < hi; i++ {
+			if i >= 0 && i < len(b.pack) {
+				win[i] = true
+			}
+		}
+	}
+	mark(0, 64)
+	mark(len(b.pack)-64, len(b.pack))
+	for k := 4096; k < len(b.pack)+8; k += 4096 {
+		mark(k-8, k+9)
+	}
+	for _, r := range b.regions {
+		mark(int(r.from)-6, int(r.from)+13)
+		mark(int(r.to)-8, int(r.to))
+	}
+	return win
 }
